@@ -703,10 +703,20 @@ def run(ctx):
     for mn_ in ('input.openQCD', 'input.sfcf', 'input.hadrons', 'input.misc', 'input.utils'):
         ctx.guarded('C17-D6', mn_ + '@parameters', unusedparams.check, ctx, 'C17-D6', ctx.repo.mod(mn_))
         ctx.guarded('C17-D6', mn_ + '@loop-variables', leakedloop.check, ctx, 'C17-D6', ctx.repo.mod(mn_))
+    ctx.rule('C17-D7', 'a search for the block / record that matches the selection examines every candidate before it reports "not found"')
+    from .. import searchloop
+    n_search = 0
+    for mn_ in ('input.openQCD', 'input.sfcf', 'input.hadrons', 'input.misc', 'input.utils'):
+        n_search += ctx.guarded('C17-D7', mn_ + '@search-loops', searchloop.check, ctx, 'C17-D7', ctx.repo.mod(mn_)) or 0
+    ctx.floor('C17-D7 search tests (if ...: break in a loop)', n_search, 5)
 
 
 
 SELFTEST = [
+    ('fix-reverted-append-search', 'pyerrors/input/sfcf.py', '                    break\n        else:\n            raise ValueError("Did not find pattern\\n", pattern, "\\nin\\n", filename)\n',
+     '                    break\n                else:\n                    raise ValueError("Did not find pattern\\n", pattern, "\\nin\\n", filename)\n', 'C17-D7'),
+    ('benign-append-search-flag', 'pyerrors/input/sfcf.py', '        for linenumber, line in enumerate(chunk):\n            if line.startswith("gauge_name"):\n                gauge_line = linenumber\n',
+     '        start_read = None\n        for linenumber, line in enumerate(chunk):\n            if line.startswith("gauge_name"):\n                gauge_line = linenumber\n', 'BENIGN'),
     ('flow-window-inclusive', 'pyerrors/input/openQCD.py', 'current + tmax - xmin])', 'current + tmax - xmin + 1])', 'C17-D4'),
     ('re-im-swapped', 'pyerrors/input/openQCD.py', '                        realsamples[repnum][t].append(corrres[0][t])', '                        realsamples[repnum][t].append(corrres[1][t])', 'C17-D4'),
     ('benign-re-im-strided', 'pyerrors/input/openQCD.py', '                    corrres = [[], []]\n                    for i in range(len(tmpcorr)):\n                        corrres[i % 2].append(tmpcorr[i])\n', '                    corrres = [tmpcorr[0::2], tmpcorr[1::2]]\n', 'BENIGN'),
